@@ -33,7 +33,7 @@ def st3 (v2 : BitVec 64) : BitVec 64 := ((v2 &&& 0x0000FFFF0000FFFF#64) * 429496
 theorem isSome_eq (w : BitVec 64) : (fastDigitParse w).isSome = allDig w := by
   unfold fastDigitParse allDig byteAt isDig
   simp only []
-  split <;> simp_all <;> bv_decide
+  split <;> simp_all <;> bv_decide (config := { timeout := 180 })
 
 theorem value_eq (w : BitVec 64) : ∀ v, fastDigitParse w = some v → v = st3 (st2 (st1 w)) := by
   intro v h
@@ -49,29 +49,29 @@ theorem st1_spec (w : BitVec 64) (h : allDig w = true) :
       (dg w 0 * 10 + dg w 1) ||| ((dg w 2 * 10 + dg w 3) <<< 16) ||| ((dg w 4 * 10 + dg w 5) <<< 32)
         ||| ((dg w 6 * 10 + dg w 7) <<< 48) := by
   unfold allDig st1 dg byteAt isDig at *
-  bv_decide
+  bv_decide (config := { timeout := 180 })
 
 theorem pair_le (w : BitVec 64) (h : allDig w = true) :
     (dg w 0 * 10 + dg w 1).ule 99#64 = true ∧ (dg w 2 * 10 + dg w 3).ule 99#64 = true ∧
     (dg w 4 * 10 + dg w 5).ule 99#64 = true ∧ (dg w 6 * 10 + dg w 7).ule 99#64 = true := by
   unfold allDig dg byteAt isDig at *
-  refine ⟨?_, ?_, ?_, ?_⟩ <;> bv_decide
+  refine ⟨?_, ?_, ?_, ?_⟩ <;> bv_decide (config := { timeout := 180 })
 
 /-- stage 2: four lanes `≤ 99` are combined into two 32-bit lanes `100·a + b` -/
 theorem st2_spec (a b c d : BitVec 64) (ha : a.ule 99#64 = true) (hb : b.ule 99#64 = true)
     (hc : c.ule 99#64 = true) (hd : d.ule 99#64 = true) :
     (((a ||| (b <<< 16) ||| (c <<< 32) ||| (d <<< 48)) * 6553601#64) >>> 16) &&& 0x0000FFFF0000FFFF#64 =
       (a * 100 + b) ||| ((c * 100 + d) <<< 32) := by
-  bv_decide
+  bv_decide (config := { timeout := 180 })
 
 theorem quad_le (a b : BitVec 64) (ha : a.ule 99#64 = true) (hb : b.ule 99#64 = true) :
     (a * 100 + b).ule 9999#64 = true := by
-  bv_decide
+  bv_decide (config := { timeout := 180 })
 
 /-- stage 3: two lanes `≤ 9999` are combined into `10000·p + q` -/
 theorem st3_spec (p q : BitVec 64) (hp : p.ule 9999#64 = true) (hq : q.ule 9999#64 = true) :
     ((p ||| (q <<< 32)) * 42949672960001#64) >>> 32 = p * 10000 + q := by
-  bv_decide
+  bv_decide (config := { timeout := 180 })
 
 /-- **`fast_digit_parse`, value**: on eight digits the three stages compute the decimal value. -/
 theorem stages_spec (w : BitVec 64) (h : allDig w = true) : st3 (st2 (st1 w)) = horner w := by
@@ -112,7 +112,7 @@ theorem byteAt_pack8 (b0 b1 b2 b3 b4 b5 b6 b7 : BitVec 8) :
     byteAt (pack8 b0 b1 b2 b3 b4 b5 b6 b7) 6 = b6.setWidth 64 ∧
     byteAt (pack8 b0 b1 b2 b3 b4 b5 b6 b7) 7 = b7.setWidth 64 := by
   unfold byteAt pack8
-  refine ⟨?_, ?_, ?_, ?_, ?_, ?_, ?_, ?_⟩ <;> bv_decide
+  refine ⟨?_, ?_, ?_, ?_, ?_, ?_, ?_, ?_⟩ <;> bv_decide (config := { timeout := 180 })
 
 /-- the 8-byte mask trick of `Date::_parse` for `YYYY.M.D` (date.rs:569-570): the two tested
 bytes are the dots, and `e` is the word with both dots replaced by '0'. -/
@@ -124,8 +124,8 @@ theorem mask_trick (b0 b1 b2 b3 b4 b5 b6 b7 : BitVec 8) :
         pack8 b0 b1 b2 b3 0x30#8 b5 0x30#8 b7) := by
   unfold pack8
   constructor
-  · bv_decide
+  · bv_decide (config := { timeout := 180 })
   · rintro ⟨rfl, rfl⟩
-    bv_decide
+    bv_decide (config := { timeout := 180 })
 
 end Jomini.Date.Swar
